@@ -184,6 +184,20 @@ func (ig *incGen) file(depth int, cmdSafe, allowAffix bool, feats map[string]boo
 		feats["inc-suffix"] = true
 		sb.WriteString(ind() + "##!$ " + core.Pick(r, `\b`, `[^a-z]`, `\d?`, `post`) + "\n")
 	}
+	if allowAffix && !cmdSafe && core.Chance(r, 1, 5) {
+		// prefix / suffix built from the file's own definitions, which refer to each other (two or three levels)
+		feats["inc-affix-from-nested-definitions"] = true
+		a, b, c := fmt.Sprintf("aff%da", ig.n), fmt.Sprintf("aff%db", ig.n), fmt.Sprintf("aff%dc", ig.n)
+		defs := []string{"##!> define " + a + " v{{" + b + "}}-", "##!> define " + b + " [0-9]{{" + c + "}}", "##!> define " + c + " " + core.Pick(r, "z", `\.`, "q+")}
+		if core.Chance(r, 1, 2) {
+			defs = []string{"##!> define " + a + " v{{" + b + "}}-", "##!> define " + b + " [0-9]+"}
+		}
+		r.Shuffle(len(defs), func(i, j int) { defs[i], defs[j] = defs[j], defs[i] })
+		for _, d := range defs {
+			sb.WriteString(ind() + d + "\n")
+		}
+		sb.WriteString(ind() + core.Pick(r, "##!^ {{"+a+"}}", "##!$ x{{"+a+"}}", "##!^ {{"+b+"}}") + "\n")
+	}
 	defName := ""
 	if !cmdSafe && core.Chance(r, 1, 3) {
 		defName = fmt.Sprintf("incdef%d-d", ig.n)
@@ -280,6 +294,17 @@ func c05Gen(rng *rand.Rand) *metaCase {
 				ls = append(ls, core.Pick(rng, "##!> include "+f+" -- x YY s \"\"", "##!> include-except "+f+" nothing"), "##!=>")
 			}
 			ls = append(ls, "##!> include "+f, "between", "##!=>", "##!> include "+f+".ra", "##!> include dia1", "##!> include dia2")
+		}
+		if core.Chance(rng, 1, 25) {
+			// an include file above a buffer size (4 KiB, 8 KiB, 64 KiB), made of short entries
+			size := core.Pick(rng, 4200, 5000, 9000, 17000, 66000, 100000)
+			feats[fmt.Sprintf("include-file-of-%d-bytes", size)] = true
+			var big strings.Builder
+			for w := 0; big.Len() < size; w++ {
+				fmt.Fprintf(&big, "b%05d%s\n", w*7919%100000, strings.Repeat("y", w%7))
+			}
+			p.Files.Include["biglist"] = big.String()
+			ls = append(ls, "##!> include biglist")
 		}
 		for k := 1 + rng.Intn(2); k > 0; k-- {
 			ls = append(ls, core.Pick(rng, "", "  ")+"##!> include "+ig.file(2, false, true, feats)+ext())
@@ -440,7 +465,7 @@ func c06Gen(rng *rand.Rand) *metaCase {
 		}
 		var ps []string
 		for i, k := range chosen {
-			rep := core.Pick(rng, "Z", "yy", `""`, "q1", `"`, `x"`, `"y`, `[^"]*"`, `"[^"]+`)
+			rep := core.Pick(rng, "Z", "yy", `""`, "q1", `"`, `x"`, `"y`, `[^"]*"`, `"[^"]+`, "A\u00a0B", "C\u3000D", "v\vt", "\u2003", "n\u0085l")
 			if i > 0 && core.Chance(rng, 1, 2) {
 				rep = "w" + chosen[i-1] // the replacement ends in another pair's key
 				feats["replacement-ends-in-other-key"] = true
@@ -519,6 +544,15 @@ func c07Gen(rng *rand.Rand) *metaCase {
 	// the second and third set hold names that are prefixes of each other (the shorter defined before or after the longer)
 	names := [][]string{{"alpha", "b-2", "c_3", "D4", "e", "f-g_h"}, {"alpha", "b-2", "c_3", "D4", "e", "f-g_h"}, {"sh", "sh-name", "sh-name_2", "s", "D4", "D"}, {"sh-name_2", "sh-name", "sh", "D4", "D", "s"}}[rng.Intn(4)][:min(nd, 6)]
 	nd = len(names)
+	if core.Chance(rng, 1, 12) {
+		// a long chain of definitions, each referring to the next (depth 9..16)
+		names = nil
+		for i, n := 0, 9+rng.Intn(8); i <= n; i++ {
+			names = append(names, fmt.Sprintf("ch%d", i))
+		}
+		nd = len(names)
+		feats["definition-chain-of-9-or-more"] = true
+	}
 	bsAt := -1
 	if core.Chance(rng, 1, 4) {
 		// a name whose references stand directly behind a backslash: substitution is textual there as well
@@ -531,7 +565,9 @@ func c07Gen(rng *rand.Rand) *metaCase {
 	vals := make([]string, nd)
 	for i := range names {
 		v := core.Pick(rng, "abc", `\d{2}`, `[a-c]+`, `a{2}`, `[{]`, `(?:x|y)`, `(?:m|n)`, `\.`, `q?`, `\$_get`, `[$a-z_][$\w]*`, `a{1,2}${3}`, `\$1`, `$`, ",", `\.`, "x", "3", "é", `[^{}]`, `w{1,3}`)
-		if i+1 < nd && core.Chance(rng, 1, 2) {
+		if i+1 < nd && feats["definition-chain-of-9-or-more"] {
+			v = core.Pick(rng, "a", "b", "[0-9]", "x?") + "{{" + names[i+1] + "}}"
+		} else if i+1 < nd && core.Chance(rng, 1, 2) {
 			v += "{{" + names[i+1+rng.Intn(nd-i-1)] + "}}"
 			feats["nested-definition"] = true
 		}
@@ -544,6 +580,9 @@ func c07Gen(rng *rand.Rand) *metaCase {
 		vals[bsAt] = core.Pick(rng, ".+", ".x", "-", "d+", "w", "$", "s*")
 	}
 	ref := func() string {
+		if feats["definition-chain-of-9-or-more"] && core.Chance(rng, 1, 2) {
+			return "{{" + names[rng.Intn(2)] + "}}" // the top of the chain
+		}
 		if nd > 0 && core.Chance(rng, 3, 4) {
 			return "{{" + names[rng.Intn(nd)] + "}}"
 		}
